@@ -56,6 +56,10 @@ try:
             if d.get('Action') == 'pass' and d.get('Test'): passed.add(d['Test'])
         missing += [pkg + '::' + t for t in sorted(want - passed)]
     res['existing_tests_missing'] = missing; ok &= not missing
+    for cmd in meta.get('also_passing', []):
+        rc, out = sh(cmd, timeout=2400)
+        res.setdefault('also_passing', {})[cmd] = 'pass' if rc == 0 else 'FAIL rc=%d %s' % (rc, out[-300:])
+        ok &= rc == 0
 finally:
     subprocess.run(['git', '-C', '/repo', 'worktree', 'remove', '--force', wt], capture_output=True)
 res['ok'] = bool(ok); res['when'] = time.strftime('%Y-%m-%d %H:%M')
